@@ -153,7 +153,7 @@ inductive CommentRun (post : List Char) : List Char → Prop
       CommentRun post (cm ++ (w ++ g))
 
 /-- `s` has nothing pushed back, the parameters of `s0`, a sound ring, and stands in front of `cs`. -/
-structure At (s0 s : PState) (cs : List Char) : Prop where
+structure GapAt (s0 s : PState) (cs : List Char) : Prop where
   n0 : s.n = 0
   params : s.params = s0.params
   lower : s.lowerTbl = s0.lowerTbl
@@ -172,8 +172,8 @@ theorem substTok_of_ne_bound (p : List (Str × BoundValue)) (lx : Lexeme) (h : l
   unfold substTok; rw [if_neg h]
 
 /-- A fresh `Scan` from a state with nothing pushed back. -/
-theorem At.scanned {s0 s : PState} {cs : List Char} (h : At s0 s cs) :
-    (rawNext false s).1 = (scan s.r).1 ∧ At s0 (rawNext false s).2 (scan s.r).2.chars := by
+theorem GapAt.scanned {s0 s : PState} {cs : List Char} (h : GapAt s0 s cs) :
+    (rawNext false s).1 = (scan s.r).1 ∧ GapAt s0 (rawNext false s).2 (scan s.r).2.chars := by
   rw [rawNext_n0 s h.n0]
   refine ⟨rfl, ⟨h.n0, h.params, h.lower, ⟨?_, ?_⟩, rfl⟩⟩
   · show s.n ≤ _
@@ -183,8 +183,8 @@ theorem At.scanned {s0 s : PState} {cs : List Char} (h : At s0 s cs) :
 
 /-- After `c := peekRune(); if isWhitespace(c) { consumeWhitespace() }` in front of an optional
 whitespace run: the run is consumed, and so is an `eof` rune right behind it. -/
-theorem At.afterWs {s0 s : PState} {w post : List Char} (h : At s0 s (w ++ post)) (hw : WsOpt w)
-    (hp : NotWsHead post) : At s0 (wsSt s) (dropEof post) := by
+theorem GapAt.afterWs {s0 s : PState} {w post : List Char} (h : GapAt s0 s (w ++ post)) (hw : WsOpt w)
+    (hp : NotWsHead post) : GapAt s0 (wsSt s) (dropEof post) := by
   rcases hw with rfl | hw
   · have hc : s.r.chars = post := by simpa using h.chars
     have hnws : isWhitespace s.r.peek = false := by
@@ -250,9 +250,9 @@ theorem IsComment.opens {cm : List Char} (hc : IsComment cm) :
   | line body _ => exact ⟨'-', '-', _, rfl, by decide⟩
 
 /-- One iteration in front of a comment and its trailing whitespace: both are consumed. -/
-theorem skipStep_comment {s0 s : PState} {cm w post : List Char} (h : At s0 s (cm ++ (w ++ post)))
+theorem skipStep_comment {s0 s : PState} {cm w post : List Char} (h : GapAt s0 s (cm ++ (w ++ post)))
     (hc : IsComment cm) (hw : WsOpt w) (hp : NotWsHead post) :
-    ∃ s', skipStep s = .next s' ∧ At s0 s' (dropEof post) := by
+    ∃ s', skipStep s = .next s' ∧ GapAt s0 s' (dropEof post) := by
   obtain ⟨a, b, x, hcm, hopen⟩ := hc.opens
   have hp2 : s.r.peek2 = (a, b) :=
     Cursor.peek2_chars (x := x ++ (w ++ post)) (by rw [h.chars, hcm]; simp)
@@ -282,13 +282,13 @@ theorem mu_lt_fuelOf (s : PState) : mu s + 1 ≤ fuelOf s := by
 
 /-- The loop in front of a non-empty run of comments skips the whole run. -/
 theorem skipCommentsLoop_gap {post g : List Char} (hg : CommentRun post g) (hne : g ≠ [])
-    (s0 s : PState) (h : At s0 s (g ++ post)) :
-    ∃ s', At s0 s' (dropEof post) ∧
+    (s0 s : PState) (h : GapAt s0 s (g ++ post)) :
+    ∃ s', GapAt s0 s' (dropEof post) ∧
       ∀ f, mu s + 1 ≤ f → (skipCommentsLoop f).run s = (skipCommentsLoop (fuelOf s')).run s' := by
   induction hg generalizing s with
   | nil => exact absurd rfl hne
   | @cons cm w g hc hw hmax hrest ih =>
-    have h' : At s0 s (cm ++ (w ++ (g ++ post))) :=
+    have h' : GapAt s0 s (cm ++ (w ++ (g ++ post))) :=
       ⟨h.n0, h.params, h.lower, h.good, by rw [h.chars]; simp⟩
     obtain ⟨s1, hstep, hat1⟩ := skipStep_comment h' hc hw hmax
     obtain ⟨hp1, hlt⟩ := skipStep_next h.good hstep
@@ -315,8 +315,8 @@ the gap. `dropEof`: an `eof` rune (NUL) directly behind the gap is swallowed wit
 theorem parseRegex_skips_gap (s : PState) (hn : s.n = 0) (hgood : Good s) (w0 g post : List Char)
     (hc : s.r.chars = w0 ++ (g ++ post)) (hw0 : WsOpt w0) (hmax : NotWsHead (g ++ post))
     (hg : CommentRun post g) :
-    ∃ s', At s s' (dropEof post) ∧ parseRegex.run s = parseRegexSkip.run s' := by
-  have h0 : At s s (w0 ++ (g ++ post)) := ⟨hn, rfl, rfl, hgood, hc⟩
+    ∃ s', GapAt s s' (dropEof post) ∧ parseRegex.run s = parseRegexSkip.run s' := by
+  have h0 : GapAt s s (w0 ++ (g ++ post)) := ⟨hn, rfl, rfl, hgood, hc⟩
   have h1 := h0.afterWs hw0 hmax
   rw [parseRegex_run_n0 s hn]
   by_cases hg0 : g = []
